@@ -15,4 +15,6 @@ def extras(tier, seed):
     from pyvc.bounded import run_bounded
 
     # cross-check of C12/event-store/get_events_for_workflow on a real database file (bounded, not counted as proved)
-    return [run_bounded("C12", "c12_event_store.py", "C12/bounded/all-events-of-the-workflow-returned", tier, seed)]
+    return [run_bounded("C12", "c12_event_store.py", "C12/bounded/all-events-of-the-workflow-returned", tier, seed),
+            # rebuild as of p = fold of the prefix; snapshot + later events = full replay; one replayer / snapshot store across queries
+            run_bounded("C12", "c12_rebuild.py", "C12/bounded/rebuild-equals-prefix-fold", tier, seed)]
